@@ -50,5 +50,6 @@ def jobs(tier):
     for s in states:
         for model in ('api', 'close'):
             jobs.append(Job(CR, dict(s, h5_model=model), pkg_key='sampler',
-                            max_paths=40000, max_int_values=400, validate=1))
+                            max_paths=40000, max_int_values=400, validate=1,
+                            split=8))
     return jobs
